@@ -111,7 +111,7 @@ func c12HistoryFamilies(tier string) []engine.Family {
 		v     interface{}
 	}
 	groups := map[bool][]hv{}
-	want := map[string]bool{"SeedHolder": true, "SeedInlineFolderV": true, "SeedInlineFolderP": true, "SeedInlineIfc": true, "SeedInlinePtr": true, "SeedNode": true,
+	want := map[string]bool{"SeedBadRec": true, "SeedHolder": true, "SeedInlineFolderV": true, "SeedInlineFolderP": true, "SeedInlineIfc": true, "SeedInlinePtr": true, "SeedNode": true,
 		"SeedNamedFields": true, "SeedTags": true, "SeedCustomHolder": true, "SeedFolderV": true, "SeedRec": true, "SeedWithUnexported": true}
 	var customOpts []gotype.FoldOption
 	for _, s := range seeds() {
@@ -157,9 +157,6 @@ func c12HistoryFamilies(tier string) []engine.Family {
 			x.Sample(func() interface{} {
 				return map[string]interface{}{"first_value": trunc(model.Dump(a.v), 200), "first_type": fmt.Sprintf("%T", a.v), "visitor_fails_at_event": k, "second_value": trunc(model.Dump(b.v), 200), "second_type": fmt.Sprintf("%T", b.v)}
 			})
-			if fe.Refuse {
-				return
-			}
 			rec := model.NewRecorder()
 			rec.Err = failure
 			var err1, err2 error
@@ -181,7 +178,7 @@ func c12HistoryFamilies(tier string) []engine.Family {
 			})
 			wit := func() interface{} {
 				return map[string]interface{}{"first_value": trunc(model.Dump(a.v), 200), "first_type": fmt.Sprintf("%T", a.v), "visitor_fails_at_event": k, "first_err": errStr(err1),
-					"second_value": trunc(model.Dump(b.v), 200), "second_type": fmt.Sprintf("%T", b.v), "second_err": errStr(err2), "second_events": trunc(model.EventsString(rec.Evs[mark:]), 400), "model": trunc(fe.V.String(), 400)}
+					"second_value": trunc(model.Dump(b.v), 200), "second_type": fmt.Sprintf("%T", b.v), "second_err": errStr(err2), "second_events": trunc(model.EventsString(rec.Evs[mark:]), 400), "model": trunc(fe.V.String(), 400), "model_refuses": fe.Why}
 			}
 			class := "after-failed-fold:" + b.class
 			if res.Bad() || res.Err != nil {
@@ -190,6 +187,14 @@ func c12HistoryFamilies(tier string) []engine.Family {
 			}
 			if k < len(probe.Evs) && err1 == nil {
 				x.Violation("gotype.Iterator.Fold", "visitor-error-swallowed", class, "the visitor failed at event "+fmt.Sprint(k)+" but Fold returned nil", wit())
+				return
+			}
+			if fe.Refuse {
+				// a value the model refuses must be refused again (an error, not a crash, not silence) whatever came before
+				x.Count("refusals_checked", 1)
+				if err2 == nil {
+					x.Violation("gotype.Iterator.Fold", "unsupported-accepted", class, "the model refuses this value ("+fe.Why+") but Fold on the used iterator returned nil", wit())
+				}
 				return
 			}
 			if err2 != nil {
